@@ -1597,6 +1597,15 @@ impl<'a> World<'a> {
             let d = format!("no client input, unsent output or unanswered request remains, but the epoll descriptor still signals readiness (ready set {:?}, interest {})", self.ready_set(), self.interest_masks());
             return self.fail("spin", d);
         }
+        // nobody is left waiting at the listener: every client that connected has been accepted
+        // or turned away (503 + close)
+        for i in 0..self.clients.len() {
+            let c = &self.clients[i];
+            if c.connected && !c.closed && !c.accepted && !c.refused {
+                let d = format!("client {} connected but, after fair completion, the server has neither accepted nor refused it and its epoll descriptor is not readable ({} connections open; interest {})", i, self.server_table().len(), self.interest_masks());
+                return self.fail("pending-connection-ignored", d);
+            }
+        }
         self.check_references_drained();
     }
 
